@@ -644,7 +644,7 @@ impl Prop for C08 {
     }
     fn cases(&self, tier: Tier) -> usize {
         match tier {
-            Tier::Quick => 1500,
+            Tier::Quick => 3000,
             Tier::Thorough => 40000,
         }
     }
